@@ -170,9 +170,10 @@ def instances(tier, seed):
     out.append(Instance("id_counters", c10.h_id_counters, ["src.isoform_assignment:ReadAssignment.__init__", "src.gene_info:FeatureInfo.__init__"],
                         "symbolic prior counter values", weight=5))
     # memory mode: BAM re-fetch vs in-memory index, compact record from file vs in memory (shared with C05 / C15)
-    for n, ml in ([(2, 6), (3, 5)] if q else [(2, 8), (3, 8), (4, 6)]):
-        out.append(Instance("memory_mode_regions[n=%d]" % n, c05.h_split(n, ml), c05.instances(tier, seed)[0].funcs,
-                            "%d alignments, both memory modes side by side (scaled constants)" % n, weight=100 ** n, budget_s=2400))
+    for n, ml, uni in ([(2, 6, c05.UNIVERSE), (3, 6, 14)] if q else [(2, 8, c05.UNIVERSE), (3, 8, c05.UNIVERSE), (4, 6, c05.UNIVERSE)]):
+        out.append(Instance("memory_mode_regions[n=%d]" % n, c05.h_split(n, ml, uni), c05.instances(tier, seed)[0].funcs,
+                            "%d alignments of length <= %d starting in [0,%d), both memory modes side by side (scaled constants)" % (n, ml, uni),
+                            weight=100 ** n, budget_s=2400))
     for sh in ([(2, 1, 0, 0, False)] if q else [(2, 1, 0, 0, False), (1, 2, 1, 1, True)]):
         out.append(Instance("memory_mode_compact_record[%d exons]" % sh[0], c15.h_assignment(*(sh + (seed % 3, seed % 8))),
                             ["src.isoform_assignment:BasicReadAssignment.deserialize_from_read_assignment", "src.isoform_assignment:BasicReadAssignment.__init__"],
